@@ -188,7 +188,7 @@ var (
 var c04Root = c04User{
 	user:  c04Cred{enc: "plain", plain: "verifroot"},
 	pass:  c04Cred{enc: "plain", plain: "r00tpass"},
-	nets:  []string{"10.250.0.1"},
+	nets:  []string{"10.250.0.1", "127.0.0.1"}, // 127.0.0.1: the address it has when no proxy is trusted
 	perms: []c04Perm{{action: "api"}, {action: "metrics"}, {action: "pprof"}, {action: "playback"}},
 }
 
